@@ -1,9 +1,10 @@
 """C09 (two clauses): reads past the end are refused - every public indexed accessor compares the index
 with the logical length before any unchecked access; chunked scans of the values do not drop their tail
-(R-REMAINDER). Width/strategy/delta arithmetic is NOT decided."""
+(R-REMAINDER); a refusing range check on a stored value is not made after a narrowing cast (R-NARROWCHECK).
+Width/strategy/delta arithmetic is NOT decided."""
 from vlib import fixtures
 from props import _refusal_common as rc
-from rules import remainder
+from rules import remainder, narrow
 
 FILES = ['src/containers/specialized/int_vec.rs', 'src/containers/specialized/int_vec/int_vec_simd.rs',
          'src/containers/specialized/uint_vector.rs', 'src/containers/uint_vec_min0.rs', 'src/containers/zip_int_vec.rs',
@@ -12,10 +13,13 @@ FILES = ['src/containers/specialized/int_vec.rs', 'src/containers/specialized/in
 
 def run(ctx):
     fx = ctx.facts("default")
-    fixtures.run(ctx, ['taint', 'remainder'])
+    fixtures.run(ctx, ['taint', 'remainder', 'narrow'])
     # every stored value is looked at: chunks_exact tails are handled
     remainder.run(ctx, fx, FILES)
     ctx.floor('R-REMAINDER.sites', 1)
+    # a delta / value that is range-checked before it is packed is checked at full width
+    narrow.run(ctx, fx, FILES)
+    ctx.floor('R-NARROWCHECK.casts', 8)
     rc.accessors(ctx, fx, FILES, r'^(get|get2|get_block|set|get_unchecked_checked|at)$', "R-GUARD.refusal")
     ctx.floor("R-GUARD.refusal.accessors", 6)
     rc.unsafe_sinks(ctx, fx, FILES, "R-GUARD")
@@ -26,6 +30,6 @@ def run(ctx):
         explanation="refusal form of R-GUARD over the indexed accessors of the compressed integer containers: the index parameter "
                     "is compared with the logical length (None / Err / assert panic edge) before any successful return or "
                     "unchecked access that depends on it.",
-        trusted_base=["rustc nightly MIR", "zfacts", "rules/refusal.py", "rules/taint.py", "rules/remainder.py"],
+        trusted_base=["rustc nightly MIR", "zfacts", "rules/refusal.py", "rules/taint.py", "rules/remainder.py", "rules/narrow.py"],
         rule_text="obligation = (accessor, index parameter) | unchecked sink with a parameter-derived operand",
     )
